@@ -99,9 +99,12 @@ func applySource(cur map[string]any, s source) (conflict bool) {
 	}
 	switch {
 	case s.Family == "file":
+		// the documents of one file are merged among themselves first; the file then merges over what came before
+		acc := map[string]any{}
 		for _, d := range s.Docs {
-			replace(ref.MergeKeep(ref.CanonMap(d), cur))
+			acc = ref.MergeKeep(ref.CanonMap(d), acc)
 		}
+		replace(ref.MergeKeep(acc, cur))
 	case s.Obj != nil:
 		replace(ref.MergeKeep(ref.CanonMap(s.Obj), cur))
 	default:
@@ -301,6 +304,10 @@ func runFlags(res *core.Result, d caseData, verbose bool) {
 			res.Add("user-null-lost", "explicit null dropped from MergeValues output", "expected %s observed %s | %s", ref.J(exp), ref.J(ref.Canon(got)), input())
 		}
 		for _, df := range diffs {
+			if isEmptyTailShape(in, df.Path) {
+				res.Add("set-changes-exactly-its-path", emptyTailClass, "%s | %s | expected %s observed %s", df, input(), ref.J(exp), ref.J(ref.Canon(got)))
+				break
+			}
 			expOwner, actOwner := "none", "none"
 			if ws := writes[df.Path]; len(ws) > 0 {
 				expOwner = ws[len(ws)-1].fam
@@ -335,6 +342,39 @@ func runFlags(res *core.Result, d caseData, verbose bool) {
 		}
 	}
 	res.Sample = sample
+}
+
+// emptyTailClass: a recognised cause shape with its own signature — the last expression of a --set /
+// --set-string line assigns an empty value to a key below a list index (`l[1].k=`): helm drops it.
+const emptyTailClass = "--set/--set-string: empty value at the end of the line below a list index (a[i].k=) is dropped"
+
+func emptyTailOp(fam string, ops []ref.SetOp) (string, bool) {
+	if (fam != "set" && fam != "set-string") || len(ops) == 0 {
+		return "", false
+	}
+	op := ops[len(ops)-1]
+	if s, ok := op.Val.(string); !ok || s != "" {
+		return "", false
+	}
+	idx := -1
+	for i, sg := range op.Path {
+		if sg.IsIdx {
+			idx = i
+		}
+	}
+	if idx < 0 || idx == len(op.Path)-1 {
+		return "", false
+	}
+	return displayPath(ref.SetOp{Path: op.Path[:1]}), true
+}
+
+func isEmptyTailShape(in flagInput, path string) bool {
+	for _, s := range in.Sources {
+		if top, ok := emptyTailOp(s.Family, s.Ops); ok && (path == top || strings.HasPrefix(path, top+".") || strings.HasPrefix(path, top+"[")) {
+			return true
+		}
+	}
+	return false
 }
 
 func ps(m map[string]bool) []string { return gen.SortedKeys(m) }
